@@ -1,15 +1,56 @@
 package main
 
 import (
+	"fmt"
 	"go/ast"
+	"go/types"
 	"strings"
 
 	"golang.org/x/tools/go/ssa"
 )
 
-func (fr *Frame) makeMap(st *State, i *ssa.MakeMap) Value { unsup("maps not modelled yet"); return nil }
-func (fr *Frame) mapUpdate(st *State, i *ssa.MapUpdate)   { unsup("maps not modelled yet") }
-func (fr *Frame) lookup(st *State, i *ssa.Lookup) Value   { unsup("maps not modelled yet"); return nil }
+// Maps are modelled opaquely: a lookup yields an arbitrary value of the element type (and an arbitrary
+// presence flag), an update is not tracked except for the escape check. Contracts over functions using maps
+// can therefore only state facts that hold for every map content (guards, error paths, ownership).
+func (fr *Frame) makeMap(st *State, i *ssa.MakeMap) Value {
+	o := fr.v.newObject(fr.fn.Name()+".map", i.Type(), false)
+	o.Unmodelled = true
+	return &PtrV{Obj: o}
+}
+
+func (fr *Frame) mapUpdate(st *State, i *ssa.MapUpdate) {
+	m := fr.get(st, i.Map)
+	val := fr.get(st, i.Value)
+	fr.v.assume("map contents are not modelled: lookups yield arbitrary values, updates are only checked for escaping arguments")
+	if p, ok := m.(*PtrV); ok && p.Obj != nil {
+		if p.Obj.Entry || p.Obj.Escaped {
+			fr.v.markEscaped(val, st)
+		} else {
+			fr.v.contains[p.Obj] = append(fr.v.contains[p.Obj], val)
+		}
+		fr.v.noteWrite(fr, st, p.Obj, nil)
+		return
+	}
+	fr.v.markEscaped(val, st)
+}
+
+func (fr *Frame) lookup(st *State, i *ssa.Lookup) Value {
+	fr.v.assume("map contents are not modelled: lookups yield arbitrary values, updates are only checked for escaping arguments")
+	if _, isMap := i.X.Type().Underlying().(*types.Map); !isMap {
+		unsup("string indexing via Lookup")
+	}
+	mt := i.X.Type().Underlying().(*types.Map)
+	fr.v.fresh++
+	entry := true
+	if p, ok := fr.get(st, i.X).(*PtrV); ok && p.Obj != nil {
+		entry = p.Obj.Entry || p.Obj.Escaped
+	}
+	val := fr.v.symValue(fmt.Sprintf("map!%d", fr.v.fresh), mt.Elem(), entry)
+	if i.CommaOk {
+		return &TupleV{[]Value{val, fr.v.F.Var(fmt.Sprintf("map!%d!ok", fr.v.fresh), SBool)}}
+	}
+	return val
+}
 
 // specFunc: specification builtins of the ring layer.
 //   vec(x)            coordinates of an extension-field element (fields of the struct, in order) as a vector
